@@ -87,13 +87,15 @@ def unwrapped_causes(fund, depth):
 
 def unwrapped_key(ctx, fund, depth):
     """the key to report an unwrapped constant under: the first known key among its causes (class key
-    before legacy key); None when no cause applies, the first class key when none is known"""
+    before legacy key); None when no cause applies; when none is known, the class keys of all causes joined
+    by '+' (a new violation: e.g. a chain ending in gulong once only one of the two defects is repaired and
+    the legacy per-type keys, which have no entry for that combination, are still in use)"""
     causes = unwrapped_causes(fund, depth)
     for ck, lk in causes:
         for k in (ck, lk):
             if k is not None and ctx.is_known(k) is not None:
                 return k
-    return causes[0][0] if causes else None
+    return '+'.join(ck for ck, _ in causes) if causes else None
 
 
 CONTAINERS = {'GList', 'GSList', 'GByteArray', 'GArray', 'GPtrArray', 'GHashTable', 'GStrv'}
